@@ -177,7 +177,7 @@ m = {
  "engines": [{"name": "pyvc", "path": "/verif/pyvc", "serves_properties": sorted(CLAIMED),
               "kind_free_text": "own verification-condition generator for Python (ast -> z3/cvc5) with sidecar contracts; modular, path-wise symbolic execution, explicit-update heap, tool-side quantifier instantiation"}],
  "checks": checks,
- "notes": "16 'fix:' commits in /repo repair genuine defects found while deriving the contracts (see /verif/known_findings.json and DESIGN.md section 8).",
+ "notes": "16 'fix:' commits in /repo repair genuine defects found while deriving the contracts; two genuine defects of nrpickler (C10) are left in the tree and listed as known findings - printed as KNOWN-FINDING by the C10 check, which exits 0 on them and reports any other outcome of their probes as a violation (see /verif/known_findings.json and DESIGN.md sections 8, 12.9, 12.12). All 20 properties are claimed; C10 at level 'other' (proved scheduler + labelled bounded round trip).",
  "not_applicable": [{"property_id": p["id"], "reason": NA[p["id"]]} for p in props if p["id"] not in CLAIMED],
 }
 json.dump(m, open("/verif/MANIFEST.json", "w"), indent=1)
